@@ -103,6 +103,14 @@ claim(
 )
 
 claim(
+    "C06",
+    "Static: decides dimensional homogeneity of every compute() by unit inference seeded with the declared input units (one dimension per + - compare, dimensionless arguments of transcendental functions, inferred dimension of each output equal to its declared unit, coefficients dimensionless, one dimension per variable name across components, no dimensional constants beyond the documented ones), which by the Pi theorem is the density-, speed- and length-scaling law up to those constants; that lift and drag are the components of the summed panel forces along the unit free-stream direction used by ConvertVelocity and along a unit normal to it; that the moment and the rotational velocity depend on positions only through differences (translation law); that CL1 = L/(qS), CDi = D/(qS) and the aircraft coefficients are the reference-area-weighted combination; and that the panel force is rho Gamma (v x l). Does not decide the scaling of the solved circulations through the linear system or the kernel's translation invariance.",
+    TB + " Unit strings are interpreted by a table of OpenMDAO unit names (oasa/unit.py BASE).",
+    "abstract interpretation with a physical-dimension domain; source-level expression extraction (sympy) with bilinear normalisation of the cross product; cross-component agreement",
+    "DESIGN.md section 2 C06",
+)
+
+claim(
     "C13",
     "Static: decides, as identities of the expressions extracted from the source for arbitrary input meshes, that every transformation except Stretch returns its input mesh when its design variable has the default value (taper 1, chord 1, sweep / dihedral / shears / twist 0) under every option valuation, that GeometryMesh chains the nine transformations in the documented order with identity defaults and a default span consistent with Stretch, that sweep and dihedral displace x and z by tan(angle) times the distance from the root with the documented sign on both halves, that the taper weight is 1 at the tip(s) and 0 at the root with a linear blend, and that reference-axis and design-variable defaults are taken by key presence. Does not decide Stretch's identity, area / chord-length invariants or B-spline behaviour.",
     TB,
